@@ -159,10 +159,29 @@ func genVal(r *mon.Rng) float64 {
 	}
 }
 
+// genInterval draws the rule's interval. The property speaks of "the timestamp rounded down to the
+// interval" for every interval, so besides the customary divisors of a minute / hour / day the generator
+// draws intervals that divide none of them (primes, 7, 14, 45, 7000, a week) and random ones: a bucket
+// start is a multiple of the interval counted from the Unix epoch, whatever the interval is.
+func genInterval(r *mon.Rng) int {
+	switch r.Intn(8) {
+	case 0, 1, 2: // customary
+		return r.PickInt([]int{1, 2, 5, 10, 30, 60, 300, 3600, 86400})
+	case 3, 4: // dividing neither a minute nor an hour nor a day (3 and 45 divide an hour, not a minute)
+		return r.PickInt([]int{3, 7, 11, 13, 14, 17, 45, 49, 61, 7000, 86400 * 7})
+	case 5, 6: // small random, primes included
+		return r.Range(2, 200)
+	default:
+		return r.Range(201, 100000)
+	}
+}
+
+func customary(iv uint) bool { return 86400%iv == 0 }
+
 func gen(seed uint64, idx int, fun string) History {
 	r := mon.NewRng(seed, 10, uint64(idx))
 	rule := Rule{Fun: fun}
-	rule.Interval = uint(r.PickInt([]int{1, 2, 5, 10, 60}))
+	rule.Interval = uint(genInterval(r))
 	iv := int(rule.Interval)
 	rule.Wait = uint(r.PickInt([]int{0, 1, iv / 2, iv, iv + 1, 2 * iv, 3*iv + 7, 120}))
 	rule.Cache = r.Bool()
@@ -285,7 +304,7 @@ func gen(seed uint64, idx int, fun string) History {
 		switch x := r.Intn(100); {
 		case x < 58: // a point
 			var ts int64
-			switch r.Intn(11) {
+			switch r.Intn(12) {
 			case 0:
 				ts = nowS
 			case 1:
@@ -310,6 +329,9 @@ func gen(seed uint64, idx int, fun string) History {
 				} else {
 					ts = nowS
 				}
+			case 9: // last second of a bucket / first and second second of the next, around the oldest bucket that is still open
+				b := ((nowS-wait)/ivl + 1 + int64(r.Intn(2))) * ivl
+				ts = b + int64(r.PickInt([]int{-1, 0, 1, iv - 1, iv, iv + 1}))
 			case 8: // into a bucket that holds contributions
 				if b, ok := someOpenBucket(); ok {
 					ts = b + int64(r.Intn(iv))
@@ -342,7 +364,7 @@ func gen(seed uint64, idx int, fun string) History {
 				d = int64(r.Intn(3*iv + 1))
 			}
 			ns := (nowS+d)*sec + int64(r.PickInt([]int{0, 0, 0, 1, 250000000, 999999999}))
-			if r.Chance(1, 60) { // far jump: regex cache entries expire (100 × wait)
+			if r.Chance(1, 60) && ns/sec+100*wait+8*ivl < 3500000000 { // far jump: regex cache entries expire (100 × wait); timestamps stay 32-bit
 				ns += (100*wait + 5*ivl) * sec
 			}
 			setClock(ns)
@@ -454,6 +476,7 @@ type stats struct {
 	open, late, closed, nonmatch, ticks, lines, buckets, subsets int
 	lateContributed, tooOld, boundaryPts, boundaryTicks          int
 	multiBuckets                                                 int
+	oddHistories, oddBoundaryPts, oddBuckets                     int // intervals of which a day is not a multiple
 }
 
 func runHistory(res *mon.Result, h History, st *stats) {
@@ -514,6 +537,10 @@ func runHistory(res *mon.Result, h History, st *stats) {
 	model := oracle.NewAggModel(rule.Fun, rule.Interval, rule.Wait)
 	matching := 0
 	bucketsWith2 := map[oracle.BK]int{}
+	odd := !customary(rule.Interval)
+	if odd {
+		st.oddHistories++
+	}
 
 	for i := range h.Evs {
 		ev := &h.Evs[i]
@@ -552,6 +579,9 @@ func runHistory(res *mon.Result, h History, st *stats) {
 				continue
 			}
 			matching++
+			if m := uint(ev.Ts) % rule.Interval; odd && (m == 0 || m == 1 || m == rule.Interval-1) {
+				st.oddBoundaryPts++
+			}
 			if din != 1 {
 				viol("matching-not-consumed", fmt.Sprintf("event %d: %s matches the rule, direction=in.aggregator=%s moved by %d (want 1) within %d barrier steps", i, ev.Name, agg.Key, din, steps))
 			}
@@ -599,6 +629,9 @@ func runHistory(res *mon.Result, h History, st *stats) {
 			st.ticks++
 			st.lines += len(lines)
 			st.buckets += nb
+			if odd {
+				st.oddBuckets += nb
+			}
 			st.subsets += ns
 		}
 	}
@@ -639,7 +672,7 @@ func (st *stats) sub(o stats) stats {
 
 func main() {
 	res := mon.NewResult("C10")
-	res.Rule = "histories of {point, clock step, tick} for one aggregation rule generated from (seed,index): function = index mod 10 (all ten), interval in {1,2,5,10,60}, wait in {0,1,iv/2,iv,iv+1,2iv,3iv+7,120}, 5 regex/format shapes (no group, $1, $2+$1, identity, ${1}_${2}), optional prefix/notPrefix/sub/notSub/notRegex, cache on/off, input buffer 0..2000; timestamps current, future, out of order, on interval boundaries, exactly on now-wait, late, and into closed buckets; ticks at the clock, lagging, and exactly at / one second before bucket+wait; non-trivial = the history had open, late-but-unflushed and closed points and emitted >= 2 buckets of which >= 1 held >= 2 contributions; distinct = (function,index)"
+	res.Rule = "histories of {point, clock step, tick} for one aggregation rule generated from (seed,index): function = index mod 10 (all ten), interval drawn from the customary divisors of a day {1,2,5,10,30,60,300,3600,86400}, from {3,7,11,13,14,17,45,49,61,7000,604800} and at random from 2..100000 (so most intervals divide neither a minute nor a day), wait in {0,1,iv/2,iv,iv+1,2iv,3iv+7,120}, 5 regex/format shapes (no group, $1, $2+$1, identity, ${1}_${2}), optional prefix/notPrefix/sub/notSub/notRegex, cache on/off, input buffer 0..2000; timestamps current, future, out of order, on and next to the bucket boundaries k*interval-1, k*interval, k*interval+1 of the rule's own interval, exactly on now-wait, late, and into closed buckets; ticks at the clock, lagging, and exactly at / one second before bucket+wait; non-trivial = the history had open, late-but-unflushed and closed points and emitted >= 2 buckets of which >= 1 held >= 2 contributions; distinct = (function,index)"
 	res.Assume("Snapshot() is answered by the goroutine that consumes points and ticks (used as a barrier, checked by reading aggregator.run)")
 	res.Assume("the expected output name of a generated input name is known by construction and cross-checked against regexp.Expand of the standard library")
 	res.Assume("standard deviation = population standard deviation (docs/aggregation.md says only 'standard devation')")
@@ -711,11 +744,17 @@ func main() {
 	res.Count("lines_emitted", st.lines)
 	res.Count("buckets_emitted", st.buckets)
 	res.Count("subset_evaluations", st.subsets)
+	res.Count("histories_with_an_interval_not_dividing_a_day", st.oddHistories)
+	res.Count("points_on_or_next_to_a_bucket_boundary_of_such_an_interval", st.oddBoundaryPts)
+	res.Count("buckets_emitted_with_such_an_interval", st.oddBuckets)
 	if replayH == nil {
 		res.Floor("histories", ran, total)
 		res.Floor("buckets_emitted", st.buckets, total*3)
 		res.Floor("points_closed", st.closed, total)
 		res.Floor("points_late_unflushed", st.late, total)
+		res.Floor("histories_with_an_interval_not_dividing_a_day", st.oddHistories, total/4)
+		res.Floor("points_on_or_next_to_a_bucket_boundary_of_such_an_interval", st.oddBoundaryPts, total/2)
+		res.Floor("buckets_emitted_with_such_an_interval", st.oddBuckets, total/2)
 	}
 	res.Write()
 }
